@@ -27,7 +27,7 @@ PROFILES = {
                 fault_weights={'crash': 2, 'restart': 4, 'partition': 4, 'stall': 1, 'slow': 1, 'child_exit': 0.5},
                 p_auto_fence=0.5, inactivity_ticks=[2, 2, 3, 4, 5], p_heal=0.7, n_groups=[1, 2], n_programs=[1, 2, 3],
                 p_autostart=0.3),
-    'C12': dict(BASE, max_faults=5, min_faults=0, ops={'supervisor.startProcess': 3, 'supervisor.stopProcess': 2,
+    'C12': dict(BASE, p_empty_instance=0.12, max_faults=5, min_faults=0, ops={'supervisor.startProcess': 3, 'supervisor.stopProcess': 2,
                                                          'start_application': 1, 'stop_application': 1,
                                                          'start_process': 1, 'stop_process': 1}, max_ops=8,
                 fault_weights={'crash': 1, 'restart': 3, 'partition': 2, 'child_exit': 4, 'slow': 1},
@@ -70,6 +70,7 @@ PROFILES = {
                 p_heal=0.9, p_final_heal=1.0),
     'C06': dict(BASE, max_faults=1, min_faults=1, ops='none', fault_weights={'crash': 1}, fault_window=(25.0, 120.0),
                 ops_near_fault=[0, 0, 1, 1, 2], startsecs=[0, 1, 2, 4, 8, 12], p_stop_before_crash=0.35,
+                p_multi_app_failure=0.25,
                 stopwaitsecs=[2, 4, 8, 12],
                 child_kinds={'ok': 0.77, 'exec_fail': 0.03, 'slow_stop': 0.12, 'ignore_stop': 0.08}, autorestart=['false'],
                 p_autostart=0.0, p_sequenced=0.9,
@@ -108,7 +109,7 @@ PROFILES = {
                 inactivity_ticks=[2, 2, 3], hostile=0.2, window=(18.0, 160.0), quiesce=30.0, n_events=(20, 120),
                 p_sees_isolated=0.3, p_strategy_mismatch=0.25, n_real=[1, 1, 2],
                 weights={'event': 40, 'forced': 5, 'removed': 5, 'added': 5, 'down': 3, 'mute': 4, 'stealth': 2,
-                         'disability': 5, 'op': 3, 'tick': 8, 'state': 8, 'replay': 12, 'slowlink': 3}),
+                         'disability': 5, 'op': 3, 'tick': 8, 'state': 8, 'replay': 12, 'slowlink': 3, 'discovery': 4}),
     'C15': dict(builder='puppet', mix=[('C12', 0.1), ('C03', 0.1)], p_real_absent=0.5, p_managed=0.9, p_numprocs=0.25, p_autostart=0.2, n_groups=[1, 2, 2], n_programs=[1, 2, 3, 4],
                 child_kinds={'ok': 0.6, 'exit_late': 0.2, 'exit_early': 0.1, 'backoff_then_ok': 0.05, 'exec_fail': 0.05},
                 supvisors_failure_strategies=['CONTINUE'], p_auto_fence=0.3, formulas=0.7,
@@ -146,7 +147,15 @@ PROFILES = {
                 p_trigger=0.5, trigger_states=['ELECTION', 'ELECTION', 'ELECTION', 'DISTRIBUTION', 'OPERATION',
                                                'CONCILIATION', 'RESTARTING', 'SHUTTING_DOWN', 'SYNCHRONIZATION'],
                 trigger_delays=[0.0, 0.0, 0.0, 0.002, 0.05, 0.5, 2.0]),
-    'C16': dict(BASE, max_faults=5, ops='all', p_absent=0.3, p_shared_node=0.5),
+    'C16': dict(BASE, mix=[('P16', 0.25)], max_faults=5, ops='all', p_absent=0.3, p_shared_node=0.5),
+    # puppet share of C16: instances of one node / cluster knowing different programs, programs and groups removed from
+    # and added to the peers, while the real instance is asked to start / stop / restart what is left
+    'P16': dict(builder='puppet', p_real_absent=0.6, p_managed=0.9, p_sequenced=0.5, p_numprocs=0.2, p_autostart=0.1,
+                n_groups=[1, 2], n_programs=[2, 3, 4], child_kinds=SIMPLE_CHILDREN,
+                supvisors_failure_strategies=['CONTINUE'], p_auto_fence=0.2, inactivity_ticks=[2, 3], hostile=0.1,
+                window=(25.0, 150.0), quiesce=40.0, n_events=(15, 60), n_real=[1, 1, 2],
+                weights={'event': 12, 'forced': 2, 'removed': 10, 'added': 4, 'down': 1, 'mute': 1, 'stealth': 0.5,
+                         'op': 12, 'op_remove': 6, 'tick': 0.5, 'state': 0.5, 'disability': 1}),
 }
 
 
@@ -172,6 +181,27 @@ def build(prop, seed):
     rng = random.Random(kernel.hash64(seed, 'gen'))
     config = gen.gen_config(rng, prof)
     plan = gen.gen_boots(rng, prof, config)
+    if prof.get('p_empty_instance'):
+        # an instance whose Supervisor has no program at all (a spare node): its hand-shake snapshot is empty
+        rng_e = random.Random(kernel.hash64(seed, 'empty_instance'))
+        if rng_e.random() < prof['p_empty_instance'] and len(config['instances']) >= 2:
+            spec_e = gen.pick(rng_e, config['instances'])
+            spec_e['absent_programs'] = ['%s:%s' % (g['name'], p_['name']) for g in config['groups'] for p_ in g['programs']]
+            spec_e.pop('disabled', None)
+    if prof.get('p_multi_app_failure'):
+        # several applications of one priority hit by the same loss: the applications share their start_sequence, stay
+        # distributed and mostly use the process-level strategy (own random stream: the rest of the scenario is unchanged)
+        rng_m = random.Random(kernel.hash64(seed, 'multi_app_failure'))
+        if rng_m.random() < prof['p_multi_app_failure']:
+            seq = rng_m.randint(0, 2)
+            for app_m in config['rules']['applications']:
+                app_m['start_sequence'] = seq
+                app_m['distribution'] = 'ALL_INSTANCES'
+                app_m.pop('identifiers', None)
+                app_m['running_failure_strategy'] = gen.pick(rng_m, ['RESTART_PROCESS', 'RESTART_PROCESS', 'CONTINUE'])
+                for rule_m in app_m['programs']:
+                    if rng_m.random() < 0.7:
+                        rule_m.pop('running_failure_strategy', None)
     if rng.random() < prof.get('p_ending_in_election_focus', 0.0):
         # a process whose running failure strategy is SHUTDOWN / RESTART crashes on the freshly elected Master while it is
         # still in ELECTION (the only way to an ending state from ELECTION)
@@ -249,7 +279,21 @@ def build(prop, seed):
                 item['t'] = round(rng.uniform(0.0, 1.5), 3)
             plan[0]['t'] = 0.0
             t_end = 160.0
-            return {'prop': prop, 'seed': seed, 'config': config, 'plan': plan, 't_end': t_end}
+            scen_f = {'prop': prop, 'seed': seed, 'config': config, 'plan': plan, 't_end': t_end}
+            if rng.random() < 0.4 and len(config['instances']) >= 2:
+                # variant: the required program never answers instead of failing (it starts on another instance than the
+                # requester and none of its events arrives): the request times out, possibly as the last one in flight
+                rule1 = app['programs'][1]
+                key1 = '%s:%s' % (app['name'], rule1.get('name') or rule1['pattern'].rstrip('_'))
+                config['children'].pop(key1, None)
+                first = min(s_['nick'] for s_ in config['instances'])
+                for spec in config['instances']:
+                    if spec['nick'] == first:
+                        spec['absent_programs'] = [key1]
+                if progs[key1.split(':')[1]].get('numprocs', 1) == 1:
+                    scen_f['event_drop'] = {'rate': 1.0, 'ns': [key1]}
+                    scen_f['t_end'] = 220.0
+            return scen_f
     if rng.random() < prof.get('p_join_only', 0.0) and len(config['instances']) >= 3:
         # join-only run: nothing but boots and slow (directed) links, the last joiner being the instance the election
         # rule prefers (lowest nick, or a core member) and hearing the established Master late
@@ -477,6 +521,7 @@ def install_event_drop(run, drop):
     import json
     sim = run.sim
     rate = drop['rate']
+    only = set(drop['ns']) if drop.get('ns') else None   # 'never answering' processes: their events only
 
     def rpc_filter(sim_, rec, args):
         if rec['method'] != 'supervisor.sendRemoteCommEvent' or rec['src'] == rec['dst']:
@@ -488,6 +533,8 @@ def install_event_drop(run, drop):
         except Exception:  # noqa
             return None
         if header != 1:
+            return None
+        if only is not None and '%s:%s' % (body.get('group'), body.get('name')) not in only:
             return None
         r = sim.rng('event_drop', rec['src'], rec['dst'])
         if r.random() < rate:
